@@ -214,10 +214,35 @@ func (e *Exec) runnable() []*G {
 	var rs []*G
 	for _, g := range e.gs {
 		if g.status == GRunnable {
+			if e.onlyFilter != "" && !gMatches(g, e.onlyFilter) {
+				continue
+			}
 			rs = append(rs, g)
 		}
 	}
+	if len(rs) == 0 && e.onlyFilter != "" {
+		// nothing matching can run any more: the restriction ends and its caller continues
+		e.onlyFilter = ""
+		if e.onlyCaller != nil && e.onlyCaller.status == GQuiesce {
+			e.onlyCaller.status = GRunnable
+			c := e.onlyCaller
+			e.onlyCaller = nil
+			return []*G{c}
+		}
+		return e.runnable()
+	}
 	return rs
+}
+
+func gMatches(g *G, sub string) bool {
+	for _, alt := range strings.Split(sub, "|") {
+		for _, fr := range g.frames {
+			if strings.Contains(fr.fn.String(), alt) {
+				return true
+			}
+		}
+	}
+	return false
 }
 
 func (e *Exec) schedule() *G {
